@@ -103,6 +103,14 @@ def _pure_stdlib():
         t[("ast", n)] = getattr(ast, n)
     for n in ("sub", "subn", "match", "fullmatch", "search", "findall", "split", "escape"):
         t[("re", n)] = getattr(_re, n)
+
+    def _compile(pattern, flags=0):
+        _re.compile(pattern, flags if isinstance(flags, int) else 0)      # a malformed pattern raises as at import
+        names = [n_ for n_ in ("IGNORECASE", "MULTILINE", "DOTALL", "VERBOSE", "ASCII") if isinstance(flags, int) and flags & getattr(_re, n_)]
+        return lit.Regex(pattern, " | ".join(f"re.{n_}" for n_ in names))
+    t[("re", "compile")] = _compile
+    for n in ("IGNORECASE", "MULTILINE", "DOTALL", "VERBOSE", "ASCII", "I", "M", "S", "X", "A"):
+        t[("re", n)] = int(getattr(_re, n))
     return t
 
 
